@@ -1,6 +1,6 @@
 """C45 Shutdown releases every connection and stops accepting work (W-FULL)."""
 from dsim import seams
-from dsim.core import HarnessError
+from dsim.core import HarnessError, Deadlock
 from props.common import gen_strategy, quiet_logging, Violations
 from props.c12 import PoolRun, gen_pool_plan
 from worlds.full import ReqObs
@@ -59,6 +59,7 @@ def gen_plan(rng, tier):
         # the session has a keyspace: every new pooled connection (also a replacement) issues USE before it is installed
         p['session_keyspace'] = 'ks1'
         p['use_delay'] = rng.choice([0.0, 0.02, 0.1, 0.4])
+    p['tcp_rto'] = 30.0
     return p
 
 
@@ -111,17 +112,26 @@ def run_plan(plan, seed, choices=None):
     sim.spin_limit = 1500
     sd = plan['shutdown']
     w.spawn(run.main, 'main')
-    status = w.run_until_users_done()
+    try:
+        status = w.run_until_users_done()
+    except Deadlock as e:
+        # every thread is blocked for good: if shutdown() is among them that is C45/returns, not a harness matter
+        status = 'deadlock'
+        run.st['deadlock'] = str(e)
+        if run.st.get('shutdown_start') is None or run.st.get('shutdown_end') is not None:
+            raise
     if run.connect_error and not sd.get('during_connect'):
         raise HarnessError('connect failed: %s' % run.connect_error)
     if status == 'done':
         w.settle(8.0)
-    w.drain()
+    if status != 'deadlock':
+        w.drain()
     V = Violations()
     V.check('C45/returns')
     if run.st.get('shutdown_start') is not None and run.st.get('shutdown_end') is None:
-        V.add('C45/returns', 'shutdown-did-not-return', 'shutdown() was called (seq %d) and had not returned at the horizon (status %s)'
-              % (run.st['shutdown_start'], status))
+        V.add('C45/returns', 'shutdown-did-not-return' + (':deadlock' if status == 'deadlock' else ''),
+              'shutdown() was called (seq %d) and had not returned at the horizon (status %s%s)'
+              % (run.st['shutdown_start'], status, ': ' + run.st['deadlock'] if run.st.get('deadlock') else ''))
     if run.st.get('shutdown_exc'):
         V.add('C45/returns', 'shutdown-raised', 'shutdown raised %s' % run.st['shutdown_exc'])
     end = run.st.get('all_shutdown')
